@@ -1610,6 +1610,33 @@ def check_C20(ctx):
             nb += 1
             ctx.rep.violation({'kind': 'cli', 'file_hex': data.hex() if len(data) < 3000 else data.hex()[:3000] + '...', 'file_len': len(data), 'explanation': bad,
                                'replay': 'write the bytes to a file and run bin/eav (ASan build) on it'})
+    # several files in one run (state the tool keeps between files: buffers sized for the previous file, counters): the output must be the
+    # concatenation of what the tool prints for each file alone, in the order the tool processes its arguments (either order is taken)
+    def solo(d):
+        pth = os.path.join(ctx.snap.root, 'cli_solo.txt'); open(pth, 'wb').write(d)
+        return subprocess.run([exe, pth], stdout=subprocess.PIPE, stderr=subprocess.PIPE, env=env, timeout=120)
+    short = [b'a@b.c\n', b'bad\n#c\n a@b.org \n', b'\xff\xfe\n', b'']
+    longs = [b'a' * n + b'\n' for n in (120, 1000, 4000, 4095, 4096, 4097, 8192, 20000)] + [b'\x01' * 5000 + b'\na@b.c\n', ('é' * 3000).encode() + b'@b.com\n']
+    combos = [(x, y) for x in short[:3] for y in longs] + [(y, x) for x in short[:3] for y in longs] + [(longs[4], longs[1]), (short[0], longs[4], short[1]), (longs[6], short[3], short[0])]
+    for cb in combos:
+        paths = []
+        for j, d in enumerate(cb):
+            pth = os.path.join(ctx.snap.root, 'cli_multi_%d.txt' % j); open(pth, 'wb').write(d); paths.append(pth)
+        try:
+            r = subprocess.run([exe] + paths, stdout=subprocess.PIPE, stderr=subprocess.PIPE, env=env, timeout=120)
+            singles = [solo(d) for d in cb]
+        except subprocess.TimeoutExpired:
+            nb += 1; ctx.rep.violation({'kind': 'cli', 'files_hex': [d.hex()[:200] for d in cb], 'explanation': 'bin/eav did not terminate within 120 s on several files'}); continue
+        evals += sum(len(getlines(d)) for d in cb)
+        fw = b''.join(x.stdout for x in singles); bw = b''.join(x.stdout for x in reversed(singles))
+        bad = None
+        if any(x.returncode != 0 for x in singles): continue          # reported by the single-file runs above
+        if r.returncode != 0: bad = 'exit status %d on several files that are each processed with exit status 0; stderr: %s' % (r.returncode, r.stderr.decode('utf-8', 'replace')[-500:])
+        elif r.stdout != fw and r.stdout != bw: bad = 'output for several files is not the concatenation of the outputs for each file alone (either order)'
+        if bad and nb < 5:
+            nb += 1
+            ctx.rep.violation({'kind': 'cli', 'files_len': [len(d) for d in cb], 'files_hex': [d.hex() if len(d) < 400 else d.hex()[:400] + '...' for d in cb], 'explanation': bad,
+                               'replay': 'write each byte string to its own file and run bin/eav (ASan build) with the files as arguments in this order'})
     ctx.rep.evals += evals
     import hashlib
     for ln in raw:
@@ -1638,7 +1665,8 @@ def check_C14(ctx):
     if rc != 0:
         raise vlib.BuildError('building harness/threads.c failed:\n' + out[-2000:])
     pool = gens.addr_structured() + ['u@%s' % d for d in ()] + [('user%d@' % i).encode() + d for i, d in enumerate(gens.idn_domains(ctx.rnd, 150)[:150]) if b'@' not in d] + \
-           [b'a@\xc3\xbc.de', b'd@\xc3\xb1.x', 'и@почта.рф'.encode(), 'я@яндекс.рф'.encode(), b'a@b.com', b'x@[IPv6:::1]']
+           [b'a@\xc3\xbc.de', b'd@\xc3\xb1.x', 'и@почта.рф'.encode(), 'я@яндекс.рф'.encode(), b'a@b.com', b'x@[IPv6:::1]'] + \
+           [b'a@b.It', b'a@b.IQ', b'a@host.BIZ', b'a@host.INFO', b'a@b.IQX', b'a@b.COM', b'a@B.Org', b'a@b.TEST', b'a@b.Test.', b'a@example.ORG.', b'a@b.test.', b'a@b.info.']
     pool = [a for a in pool if 0 not in a][:1500]
     inp = ('\n'.join(hx(a) for a in pool) + '\n').encode()
     # rounds == 0: cold start (no library call before the threads are released together)
@@ -1673,7 +1701,8 @@ def check_C14(ctx):
     if rc != 0:
         raise vlib.BuildError('building harness/threads.c (plain) failed:\n' + out[-2000:])
     hpool = [b'a@example.com.', b'x@example.biz.', b'a@EXAMPLE.ORG.', b'a@a.b.example.net', b'a@b.test', b'a@b.info', b'a@b.onion.', b'a@localhost', b'a@b.com', b'a@b.zz', b'a@b.adac',
-             b'a@xn--p1ai.xn--p1ai', 'я@почта.рф'.encode(), 'a@b.中国'.encode(), b'a@[1.2.3.4]', b'a@[IPv6:::1]', b'"a b"@c.org', b'a@b', b'a..b@c.de', b'a@-b.com', b'a@b.c-d', b'a@invalid.']
+             b'a@xn--p1ai.xn--p1ai', 'я@почта.рф'.encode(), 'a@b.中国'.encode(), b'a@[1.2.3.4]', b'a@[IPv6:::1]', b'"a b"@c.org', b'a@b', b'a..b@c.de', b'a@-b.com', b'a@b.c-d', b'a@invalid.',
+             b'a@b.It', b'a@b.IQ', b'a@host.BIZ', b'a@host.INFO', b'a@b.IQX', b'a@b.COM', b'a@B.Org', b'a@b.Museum', b'a@b.TEST', b'a@b.Test.', b'a@EXAMPLE.Com', b'a@b.XN--P1AI']     # letter case: folded copies
     hin = ('\n'.join(hx(a) for a in hpool) + '\n').encode()
     iters = 1500 if not ctx.thorough() else 20000
     env2 = dict(os.environ); env2.update({'THREADS_HAMMER': str(iters), 'LC_ALL': 'C'})
